@@ -11,7 +11,6 @@ Fixpoint of_string (s : string) : str :=
   | String a r => N_of_ascii a :: of_string r
   end.
 
-Notation "'S' x" := (of_string x%string) (at level 0, x at level 0, only parsing).
 
 Fixpoint str_eqb (a b : str) : bool :=
   match a, b with
